@@ -454,3 +454,23 @@ def operand_split_block(draw):
             out += [("PUSH", 0x40 + 0x20 * i), ("MSTORE", None)]
     return out + draw(st.sampled_from([[], [("PUSH", 0), ("PUSH", 5), ("ADD", None)], [("POP", None)]]))
 
+
+@st.composite
+def dead_load_by_rule_block(draw):
+    """two loads, one of which loses its only use through a simplification rule (X-X, X^X, X<X, 0*X, 0&X ...), next to a
+    store that may alias both (the surviving load must keep its ordering with the store)"""
+    I = lambda *names: [(n, None) for n in names]
+    load = draw(st.sampled_from(["MLOAD", "MLOAD", "SLOAD"]))
+    store = "SSTORE" if load == "SLOAD" else draw(st.sampled_from(["MSTORE", "MSTORE8"]))
+    a1 = draw(st.sampled_from([I(), [("PUSH", 0x40)], I("DUP3")]))          # [] = address from the stack top
+    a2 = draw(st.sampled_from([I("DUP3"), [("PUSH", 0)], [("PUSH", 0x60)], I("DUP4")]))
+    kill = draw(st.sampled_from([I("DUP1", "SUB"), I("DUP1", "XOR"), I("DUP1", "LT"), I("DUP1", "GT"), I("DUP1", "EQ"), I("DUP1", "SGT"),
+                                 [("PUSH", 0)] + I("MUL"), [("PUSH", 0)] + I("AND"), I("DUP2", "OR", "AND"), I("DUP2", "AND", "OR"),
+                                 I("POP") + [("PUSH", 7)]]))
+    out = a1 + I(load) + a2 + I(load) + kill
+    if draw(st.booleans()):
+        out += I("DUP%d" % draw(st.integers(3, 5)), store)                       # value = rule result, symbolic address
+    else:
+        out += [("PUSH", draw(st.sampled_from([0, 0x40, 0x41])))] + I(store)
+    return out + draw(st.sampled_from([[], I("POP"), I("SWAP1"), I("DUP1", load)]))
+
